@@ -11,7 +11,7 @@ FLOORS = {"ops": 700, "munch": 240, "rulesets": 70, "rctx": 190, "eoi": 40, "cla
 
 
 def c01(ctx, env):
-    env.src(ctx, ["R-WL", "R-EXH", "R-ORDER", "R-INLINE", "R-SUBSET"])
+    env.src(ctx, ["R-WL", "R-EXH", "R-ORDER", "R-INLINE", "R-SUBSET", "R-PROV"])
     env.runtime(ctx, {"R-SUM", "R-PAIR"})
     env.replay_gen(ctx, {"R-SAVED", "P5", "P6", "P9", "TV", "TV-CTX"})
     env.witnesses(ctx, ["munch", "ops", "rctx", "rulesets", "mix"],
@@ -19,7 +19,7 @@ def c01(ctx, env):
 
 
 def c02(ctx, env):
-    env.src(ctx, ["R-THOMPSON", "R-PRIM", "R-SUBSET", "R-FLOW", "R-EXH"])
+    env.src(ctx, ["R-THOMPSON", "R-PRIM", "R-SUBSET", "R-PROV", "R-FLOW", "R-EXH"])
     env.replay_gen(ctx, {"TV", "R-BSEARCH"})
     env.witnesses(ctx, ["ops", "classes", "prec", "mix"], {"TV", "COMPILE", "R-BSEARCH", "P9"}, FLOORS)
 
@@ -37,6 +37,7 @@ def c04(ctx, env):
 
 
 def c05(ctx, env):
+    env.src(ctx, ["R-PROV", "R-SUBSET"])
     env.runtime(ctx, {"R-SUM", "R-WHO"})
     env.replay_gen(ctx, {"P1", "P2", "P3", "P4", "P9", "R-WHO", "TV"})
     env.witnesses(ctx, ["eoi", "mix"], {"TV", "COMPILE", "P1", "P2", "P3", "P4", "P9"}, FLOORS)
